@@ -19,6 +19,8 @@ const EXT: &[(&str, &str)] = &[
     ("g", "function(x) if x > 0 then error 'positive' else x"),
     ("base", "{a: 1, h:: 2, z: [self.a]}"),
     ("mixin", "{b: 2} + {assert self.b > 0}"),
+    // an object whose assertion depends on a field that later requests remove / override
+    ("svc", "{ assert self.port > 0 : 'no port', port: 8080, name: 'svc' }"),
     // a value computed while an object's assertions are being checked (and then fail)
     ("prov", "local O = { assert helper > 0 && self.y > 0 : 'bad', x: 1, y: -1 }, helper = O.x; { O: O, helper: helper }"),
 ];
@@ -82,6 +84,11 @@ const SOURCES: &[&str] = &[
     "std.extVar('mixin') + std.extVar('base') + {b: -1}",
     "[std.extVar('mixin'), std.objectFields(std.extVar('mixin') + {})]",
     "std.extVar('base') { a+: 1 } + ({} + {}) + {z+: [2]}",
+    "std.extVar('svc').name",
+    "std.objectRemoveKey(std.extVar('svc'), 'port')",
+    "[std.objectFields(std.objectRemoveKey(std.extVar('svc'), 'name')), std.extVar('svc') { port: 1 }.port]",
+    "std.mergePatch(std.extVar('svc'), {port: null})",
+    "std.extVar('svc') + {port: -1}",
     "std.extVar('prov').O.x",
     "std.extVar('prov').helper",
     "local o = { a: std.objectRemoveKey(self, 'late_' + 'gone').a }; o.a",
